@@ -739,7 +739,14 @@ class Evaluator:
             if ak == "array":
                 return ("array", tuple(ops))
             if ak in ("closure", "coroutine", "coroutine_closure"):
-                return ("closure", s["def"], tuple(ops))
+                # a captured `&mut x` where x is itself a reference (e.g. `reader: &mut R`): references are transparent, so
+                # the capture is x's current value (x, the pointer, is not reassigned through the closure)
+                caps = []
+                for o in ops:
+                    if o[0] == "mref" and not o[2] and isinstance(o[1], int) and fn.locals[o[1]]["ty"].get("k") == "ref":
+                        o = env.get(o[1], ("uninit",))
+                    caps.append(o)
+                return ("closure", s["def"], tuple(caps))
             raise Undecided("aggregate " + ak)
         if r == "repeat":
             return ("repeat", self.operand(fn, env, s["a"]), s.get("n"))
